@@ -88,10 +88,13 @@ def limitOf (lim : Limits) (ctor : String) : Int :=
   match ctor with
   | "allocate" | "aggregate" | "add_array" | "add_array_self" | "slice" | "explode" | "explode0"
   | "copy_array" | "sort_array" | "map_array" | "filter_array" | "unique_array" | "array_sub" | "array_and"
-  | "keys" | "values" => lim.maxArray
+  | "keys" | "values" | "regexp" | "reg_assoc" | "restore_array" => lim.maxArray
   | "allocate_buffer" | "add_buffer" => lim.maxBuffer
   | "map_insert" | "map_aggregate" | "map_add" | "copy_mapping" | "allocate_mapping" | "filter_mapping" | "map_mapping"
-    => lim.maxMapping
+  | "map_compose" | "map_compose_eq" | "restore_mapping" => lim.maxMapping
+  -- nesting depths reported by the LPC side: bounded by MAX_SAVE_SVALUE_DEPTH (copy) / by the text length (restore)
+  | "copy_nested" => (NV.Gen.C04.maxSaveDepth : Int)
+  | "restore_nested" => lim.maxString
   | _ => lim.maxString
 
 /-- result of a mapping operation sequence, `"<flags>:<sizeof>/<nodes>"`: what sizeof () reports is what the mapping
@@ -144,6 +147,7 @@ def judgeLine (s : JState) (line : String) : JState :=
       let l := limitOf s.lim ctor
       if n > l then s.flag [s!"size-exceeded ctor={ctor} size={n} limit={l}"] else s
     | _, _ => s.flag [s!"malformed {line}"]
+  | "mismatch" :: rest => s.flag [s!"map-count-mismatch {" ".intercalate rest}"]
   | "crash" :: _ => s.flag [s!"crash {line}"]
   | "sanitizer" :: _ => s.flag [s!"sanitizer {line}"]
   | "badcmd" :: _ => s.flag [s!"harness {line}"]
